@@ -379,26 +379,12 @@ Definition g2_cmp (built : bool) (r : PipelineS.stres (list Order.row)) (cls : n
 Definition g2_run (q : string) (d : Storage.store) (m : Pipeline.tmode) : PipelineS.stres (list Order.row) :=
   AggErrPos.select_stmt_text_stp prim_fops t3_re Fold.pf_fmt_v C03Stmt.ag64 C03Stmt.q_pint C03Stmt.q_pfloat q d m.
 
-(* (agent MA) after the repair of checkFunctionCalls (fix: aggregate argument counts tested before
-   the folder runs) a wrong argument count of an aggregate function is a SyntaxError of the call
-   validation, at the call, where AggregatePlan.Init (PipelineS.afun_of) returned an ExecuteError
-   at the same call: a text BuildPlan rejects as Model/AggInit.parse_check_agg (repaired) does, in
-   its call validation, agrees *)
-From KV Require Model.AggInit.
-Definition g2_repaired_calls (c : ncase) (bcls built : nat) : bool :=
-  (built =? 0)%nat &&
-  match AggInit.parse_check_agg prim_fops t3_re Fold.pf_fmt_v true true (cquery c) with
-  | AggInit.PAErr KCalls z => (cerr c =? 2)%nat && (cpos c =? z)%Z && (bcls =? 2)%nat && (cpad c =? z)%Z
-  | _ => false
-  end.
-
 Definition g2_code (c : ncase) : nat :=
   match cspos c with
   | [bcls; B; built] =>
       match t3_spec_code c bcls with
       | S _ => 2%nat
       | O =>
-          if g2_repaired_calls c bcls built then 0%nat else
           let d := g2_store (croots c) in
           let b := (0 <? built)%nat in
           t3_worst (g2_cmp b (g2_run (cquery c) d Pipeline.MRow) (cerr c) (cpos c))
